@@ -64,7 +64,35 @@ def _setup():
 
         def get_context_data(self, x=0):
             return {"x": x}
+
+    @register("vf7_panel")
+    class Panel(Component):
+        template = ('<div>{% slot "body" default %}DEFAULT BODY{% endslot %}|{% slot "foot" k=n %}F{{ n }}{% endslot %}'
+                    '|{{ component_vars.is_filled.body }}{{ component_vars.is_filled.foot }}</div>')
+
+        def get_context_data(self, n=0):
+            return {"n": n}
     sched.install_traced_registries()
+
+
+SLOT_PAGES = {
+    "named": '{% component "vf7_panel" n=n %}{% fill "body" %}from {{ n }}{% endfill %}{% endcomponent %}',
+    "alias": '{% component "vf7_panel" n=n %}{% fill "body" default="orig" %}[{{ orig }}]{% endfill %}'
+             '{% fill "foot" data="d" default="o2" %}<{{ d.k }}{{ o2 }}>{% endfill %}{% endcomponent %}',
+    "implicit": '{% component "vf7_panel" n=n %}x{{ n }}{% component "vf7_panel" n=n %}{% fill "foot" data="d" %}({{ d.k }})'
+                '{% endfill %}{% endcomponent %}y{% endcomponent %}',
+    "loop": '{% component "vf7_panel" n=n %}{% for s in names %}{% fill name=s default="o" %}{{ s }}:{{ o }}{% endfill %}'
+            '{% endfor %}{% endcomponent %}',
+}
+
+
+def slot_workload(name: str, n: int) -> Callable[[], str]:
+    from django.template import Context, Template
+
+    def run():
+        html = Template(SLOT_PAGES[name]).render(Context({"n": n, "names": ["body", "foot"]}))
+        return re.sub(r"<!--.*?-->|\sdata-djc-id-\w+(=\"\")?", "", html)
+    return run
 
 
 def workload(name: str, n: int) -> Callable[[], str]:
@@ -252,7 +280,7 @@ def lru_ok() -> Optional[str]:
     return None
 
 
-def body(chk: Check, *, pairs, triples, limit, n_pre2: int, n_random: int) -> None:
+def body(chk: Check, *, pairs, triples, limit, n_pre2: int, n_random: int, slot_sweep=(600, 12)) -> None:
     from django.conf import settings
     import django_components.cache as dcache
     _setup()
@@ -276,6 +304,17 @@ def body(chk: Check, *, pairs, triples, limit, n_pre2: int, n_random: int) -> No
     for w in [("ok", "ok"), ("host", "fail"), ("fail", "fail"), ("noprov", "fail"), ("host", "host", "fail"), ("ok", "fail", "noprov")]:
         chs = [(f"rnd{k}", sched.random_chooser(random.Random(rnd.random()), 0.25)) for k in range(n_random)]
         explore(chk, "provide " + "|".join(w), mk(w), chs, lines=False)
+    # slots and fills: state that must be confined to the rendering thread (fill collection, default aliases,
+    # is_filled); pre-emption before every line of slots.py: random schedules + a sweep of single pre-emptions
+    sched.WATCH_EXTRA[:] = ["django_components/slots.py"]
+    try:
+        for w in [("named", "alias"), ("alias", "implicit"), ("loop", "alias"), ("implicit", "loop", "named")]:
+            mks = (lambda w=w: [slot_workload(nm, i + 1) for i, nm in enumerate(w)])
+            chs = [(f"rnd{k}", sched.random_chooser(random.Random(rnd.random()), 0.08)) for k in range(n_random)] + \
+                [(f"pre{a}", sched.preemption_chooser([a])) for a in range(1, slot_sweep[0], slot_sweep[1])]
+            explore(chk, "slots " + "|".join(w), mks, chs, lines=True)
+    finally:
+        sched.WATCH_EXTRA.clear()
     # template cache of size 1-2: compile more distinct templates than fit, line-level pre-emption
     old = settings.COMPONENTS
     for size in (1, 2):
